@@ -61,10 +61,12 @@ Definition wf (f : fields) : bool :=
   && is2 (f_hour f) && is2 (f_minute f) && is2 (f_second f)
   && forallb is_dig (f_frac f) && wf_zone (f_zone f).
 Definition G3339 (f : fields) (s : bytes) : Prop := wf f = true /\ s = render f.
-(** the strict RFC 3339 shapes (upper-case 'T' and 'Z', ASCII sign): what a writer must produce *)
+(** the shapes of RFC 3339 proper, without chrono's reading latitude: "T" or "Z" (ABNF literals are
+    case-insensitive, so "t"/"z" too; section 5.6 recommends upper case), ASCII sign, no space: what
+    a writer may produce *)
 Definition strict (f : fields) : bool :=
-  (f_sep f =? 84) &&
-  match f_zone f with Zulu c => c =? 90 | Numeric sg _ _ => (sg =? 0) || (sg =? 1) end.
+  ((f_sep f =? 84) || (f_sep f =? 116)) &&
+  match f_zone f with Zulu _ => true | Numeric sg _ _ => (sg =? 0) || (sg =? 1) end.
 
 (** * Recogniser *)
 Definition digv (c : Z) : option Z := if is_digit c then Some (c - 48) else None.
@@ -210,3 +212,11 @@ Definition fields_of (y o secs frac off secform : Z) (use_z : bool) : fields :=
     (frac_shown nd sub)
     (if use_z && (off =? 0) then Zulu 90
      else Numeric (if off <? 0 then 1 else 0) (Z.abs off / 3600) (Z.abs off / 60 mod 60)).
+
+(** the nanosecond field of a value after truncation to the printed precision (the leap-second
+    flag, 10^9, is kept) *)
+Definition truncated_frac (secform frac : Z) : Z :=
+  let leap := 1000000000 <=? frac in
+  let sub := if leap then frac - 1000000000 else frac in
+  let unit := 10 ^ (9 - frac_digits secform sub) in
+  sub / unit * unit + (if leap then 1000000000 else 0).
